@@ -391,6 +391,8 @@ impl Instance {
 
         let mut terms = Vec::new();
         for i in 0..n {
+            #[cfg(feature = "verif-hooks")]
+            crate::verif::emit("log_encode.bit", i as u64, n as u64);
             let id = id_base + i as u64;
             terms.push((
                 id,
